@@ -236,6 +236,7 @@ pub static PROFILE: Profile = Profile {
     liveness: true,
     enumerate: Some(enumerate),
     extra: None,
+    borrow: &[],
     assumptions: &[
         "whether a vetoed action still notifies subscribers (and runs its later hooks) is left unspecified and accepted both ways",
         "DoneAction from before_effect is not given a meaning by the property: effects left in the list are expected to run whatever the verdict",
